@@ -240,6 +240,32 @@ Theorem C09_merge_all_perm_equiv :
       inst_set re_match fmt_ok o DV n (merge_all D f L) v = inst_set re_match fmt_ok o DV n (merge_all D f L') v.
 Proof. exact merge_all_perm_equiv_frag. Qed.
 
+(* FUEL DISCIPLINE of the merge (as Spec/Valid.v's for validity): an outcome is "defined" when it is Ok or never;
+   on the fragment a defined outcome does not change with more fuel, so `defined` in the theorems above means
+   "for every sufficiently large fuel", and two permutations may be evaluated at independent fuels *)
+Theorem C09_merge_fuel_stable :
+  forall (wa tm : bool) (tx : itype), tx = TNumber \/ tx = TInteger ->
+  forall (D : defs) (f f' : nat) (a b : schema),
+    f <= f' -> obj_frag wa tm tx a = true -> obj_frag wa tm tx b = true ->
+    mdef (merge D f a b) = true -> merge D f' a b = merge D f a b.
+Proof. exact merge_fuel_stable. Qed.
+
+Theorem C09_merge_all_fuel_stable :
+  forall (wa tm : bool) (tx : itype), tx = TNumber \/ tx = TInteger ->
+  forall (D : defs) (f f' : nat) (L : list schema),
+    f <= f' -> forallb (obj_frag wa tm tx) L = true ->
+    mdef (merge_all D f L) = true -> merge_all D f' L = merge_all D f L.
+Proof. exact merge_all_fuel_stable. Qed.
+
+Theorem C09_merge_all_perm_equiv_fuels :
+  forall (re_match fmt_ok : ustring -> ustring -> bool) (o : vopts) (DV : defs) (n : nat) (wa tm : bool) (tx : itype)
+         (D : defs) (f f' : nat) (L L' : list schema) (v : json),
+    tx = TNumber \/ tx = TInteger ->
+    Permutation L L' -> forallb (obj_frag wa tm tx) L = true ->
+    defined (merge_all D f L) = true -> defined (merge_all D f' L') = true -> inst_ok wa v = true ->
+    inst_set re_match fmt_ok o DV n (merge_all D f L) v = inst_set re_match fmt_ok o DV n (merge_all D f' L') v.
+Proof. exact merge_all_perm_equiv_fuels. Qed.
+
 (* ---------------------------------------------------------------- refuted on the faithful model *)
 (* finding C09-F1 *)
 Theorem C09_merge_never_refuted_int_number :
